@@ -77,6 +77,7 @@ fn run_behaviour(b: &Value, id: u64, mut out: Option<&mut dyn Write>, always_wri
     let cfg = Cfg::from_json(&b["cfg"]);
     let ops = b["ops"].as_array().cloned().unwrap_or_default();
     let exp = b.get("exp").and_then(|e| e.as_array()).cloned();
+    let last = b.get("last").cloned();
     types::reset_counters();
     let mut trace: Vec<Value> = Vec::new();
     let mut cj = cfg.to_json();
@@ -113,6 +114,13 @@ fn run_behaviour(b: &Value, id: u64, mut out: Option<&mut dyn Write>, always_wri
         match r {
             Ok(mut ev) => {
                 ev["mx"] = Value::Array(world.take_mx());
+                if let Some(last) = &last {
+                    if i + 1 == ops.len() {
+                        if let Err(m) = subset_match(last, &ev, "") {
+                            res.mismatch = Some((i, m));
+                        }
+                    }
+                }
                 if let Some(exp) = &exp {
                     if res.mismatch.is_none() {
                         if let Some(e) = exp.get(i) {
